@@ -43,6 +43,72 @@ def _multibyte(fs):
     return False
 
 
+def _snapshot(tf, unscaled):
+    """{path: comparable content} of everything a file object delivers (values normalised to little-endian bytes)"""
+    import numpy as np
+    from vf.observe import le_bytes, raw_ts_pairs
+    from nptdms.timestamp import TimestampArray
+
+    def norm(d):
+        if isinstance(d, dict):
+            return {k: norm(v) for k, v in d.items()}
+        if len(d) == 0:
+            return ('empty',)       # the container of an empty result differs between access paths (not a byte-order matter)
+        if isinstance(d, TimestampArray):
+            return ('ts', raw_ts_pairs(d))
+        a = np.asarray(d)
+        if a.dtype == object:
+            return ('obj', list(a))
+        return (a.dtype.newbyteorder('=').str, len(a), le_bytes(a))
+    out = {}
+    for g in tf.groups():
+        for ch in g.channels():
+            out[ch.path] = norm(ch.read_data(scaled=False) if unscaled else ch[:])
+    return out
+
+
+def truncation_differential(rec, variants, cut, unscaled):
+    """variants: [(name, bytes)] - encodings of the same content that differ only in byte order (equal sizes). Each is cut
+    at the same offset; whatever the little-endian one delivers, the others must deliver too."""
+    from nptdms import TdmsFile
+    refs = {}
+    for name, data in variants:
+        blob = data[:cut]
+        for mode in ('eager', 'lazy'):
+            opener = TdmsFile.read if mode == 'eager' else TdmsFile.open
+            try:
+                tf = opener(io.BytesIO(blob), raw_timestamps=True)
+                try:
+                    snap = _snapshot(tf, unscaled)
+                finally:
+                    tf.close()
+            except Exception as e:      # noqa
+                if name == 'little':
+                    return              # the little-endian reference itself is not readable here: C06's business
+                from vf.harness import describe_exc, exc_key
+                rec.violation('truncated:%s:%s:raised' % (name, mode), 'file cut at byte %d reads in little-endian but: %s' % (
+                    cut, describe_exc(e)), key=exc_key(e))
+                continue
+            if name == 'little':
+                refs[mode] = snap
+                continue
+            ref = refs[mode]
+            if snap != ref:
+                bad = [p for p in ref if snap.get(p) != ref[p]][:1] or ['(objects differ)']
+                rec.violation('truncated:%s:%s:values' % (name, mode), 'file cut at byte %d of %d: %s reads %r in this byte order '
+                              'but %r in the little-endian encoding' % (cut, len(data), bad[0], str(snap.get(bad[0]))[:120],
+                                                                        str(ref.get(bad[0]))[:120]))
+    rec.stat('truncation_differentials')
+
+
+def _cut_offset(lay, pick):
+    L = lay[-1]
+    raw = L['end'] - L['data_pos']
+    if raw < 2:
+        return None
+    return L['data_pos'] + 1 + pick % (raw - 1)
+
+
 def check(case, rec):
     from nptdms import TdmsFile
     if case.get('daqmx'):
@@ -65,8 +131,19 @@ def check(case, rec):
         # the writer did not get to fill in the last segment's length (0xFFFFFFFFFFFFFFFF), all data is present
         enc_src = {'segments': enc_src['segments'][:-1] + [dict(enc_src['segments'][-1], marker=True)]}
         rec.label('length_unknown_marker')
+    encoded = []
     for name, order in variants:
-        data, _i, _l = encode_file(with_order(enc_src, order))
+        data, _i, lay = encode_file(with_order(enc_src, order))
+        encoded.append((name, data))
+        if name == 'little':
+            lay_le = lay
+    last = enc_src['segments'][-1]
+    if case.get('cut') is not None and not use_marker and not any(t == 'str' for (_p, t, _n) in last.get('active') or []):
+        cut = _cut_offset(lay_le, case['cut'])
+        if cut is not None and len(set(len(d) for (_n, d) in encoded)) == 1:
+            rec.label('truncated_final_segment')
+            truncation_differential(rec, encoded, cut, False)
+    for name, data in encoded:
         for mode in ('eager', 'lazy'):
             for raw_ts in (True, False):
                 opener = TdmsFile.read if mode == 'eager' else TdmsFile.open
@@ -100,7 +177,8 @@ def check(case, rec):
 def cases(draw, **kw):
     fs = draw(S.file_spec(be=False, **kw))
     mix = draw(st.lists(st.booleans(), min_size=len(fs['segments']), max_size=len(fs['segments'])))
-    return {'fs': fs, 'mix': mix, 'marker': draw(st.integers(0, 3)) == 0}
+    return {'fs': fs, 'mix': mix, 'marker': draw(st.integers(0, 3)) == 0,
+            'cut': draw(st.one_of(st.none(), st.integers(0, 10 ** 6)))}
 
 
 def check_daqmx(case, rec):
@@ -114,9 +192,19 @@ def check_daqmx(case, rec):
     exd = expected_daqmx(fs)                     # defined by the little-endian encoding
     rec.nontrivial(any(s['type'] not in ('u8', 'i8') for seg in fs['segments'] for e in seg['entries'] if e.get('hdr') == 'daqmx' for s in e['scalers']))
     rec.label('daqmx')
+    encoded = []
     for name, order in (('little', [False] * n), ('big', [True] * n), ('mixed', case['mix'])):
         segs = [reencode_big_endian(seg) if be else seg for seg, be in zip(fs['segments'], order)]
-        data, _i, _l = encode_file({'segments': segs})
+        data, _i, lay = encode_file({'segments': segs})
+        encoded.append((name, data))
+        if name == 'little':
+            lay_le = lay
+    if case.get('cut') is not None:
+        cut = _cut_offset(lay_le, case['cut'])
+        if cut is not None:
+            rec.label('truncated_final_segment')
+            truncation_differential(rec, encoded, cut, True)
+    for name, data in encoded:
         for mode in ('eager', 'lazy'):
             opener = TdmsFile.read if mode == 'eager' else TdmsFile.open
             ok, tf = rec.guard('%s:%s' % (name, mode), lambda: opener(io.BytesIO(data)))
@@ -146,7 +234,8 @@ def daqmx_cases(draw):
     from vf.daqmx import daqmx_packed_file
     fs = draw(daqmx_packed_file())
     n = len(fs['segments'])
-    return {'daqmx': True, 'fs': fs, 'mix': draw(st.lists(st.booleans(), min_size=n, max_size=n))}
+    return {'daqmx': True, 'fs': fs, 'mix': draw(st.lists(st.booleans(), min_size=n, max_size=n)),
+            'cut': draw(st.one_of(st.none(), st.integers(0, 10 ** 6)))}
 
 
 @st.composite
@@ -157,7 +246,8 @@ def plan_cases(draw):
     phys, _plans = P.encode_with_plans(h['fs'], lambda i, alts: P.nth_plan(alts, h['picks'][i]))
     n = len(phys['segments'])
     # expected content comes from the logical (explicit) file; the physical encoding re-uses indexes across segments
-    return {'fs': h['fs'], 'phys': phys, 'mix': draw(st.lists(st.booleans(), min_size=n, max_size=n))}
+    return {'fs': h['fs'], 'phys': phys, 'mix': draw(st.lists(st.booleans(), min_size=n, max_size=n)),
+            'cut': draw(st.one_of(st.none(), st.integers(0, 10 ** 6)))}
 
 
 def jobs(tier):
